@@ -27,7 +27,7 @@ class FaultyFile:
         self._nwrites += 1
         if not isinstance(b, (bytes, bytearray)):
             b = memoryview(b).cast('B')          # pickle protocol 5 hands out PickleBuffer objects (no len())
-        self._seam.tick('write', n=len(b))
+        self._seam.tick('write')      # (no byte count: the pickle of an object whose dict order follows set iteration differs in size)
         if self._fault is not None:
             kind, arg = self._fault
             if kind == 'enospc_after' and self._written + len(b) > arg:
@@ -43,6 +43,27 @@ class FaultyFile:
         n = self._f.write(b)
         self._written += len(b)
         return n
+
+    def __getattr__(self, k):
+        return getattr(self._f, k)
+
+    def __enter__(self):
+        return self
+
+    def __exit__(self, *a):
+        self._f.close()
+
+
+class _YieldFile:
+    """a file whose writes are scheduling points (two saves in flight at once, see checks/c16 concurrent_saves)"""
+
+    def __init__(self, f, seam):
+        self._f, self._seam = f, seam
+
+    def write(self, b):
+        if self._seam.on_io is not None:
+            self._seam.on_io('write')
+        return self._f.write(b)
 
     def __getattr__(self, k):
         return getattr(self._f, k)
@@ -109,6 +130,7 @@ class FsSeam:
         self.handles = []
         self._restore = []
         self.pending_fault = None     # fault to apply to the next file the library opens by path
+        self.on_io = None             # scheduling hook: called at every open / write while two saves are in flight
 
     def tick(self, call, **kw):
         self.ctx.tick('fs', call=call, **kw)
@@ -122,7 +144,16 @@ class FsSeam:
         return os.path.join(self.dir, f'p{self.n}.{ext}')
 
     def rel(self, path):
-        return os.path.basename(path) if isinstance(path, str) else '<handle>'
+        if not isinstance(path, str):
+            return '<handle>'
+        b = os.path.basename(path)
+        import re
+        if re.fullmatch(r'(p|crash)\d+(\.\w+)?', b):
+            return b
+        # a name the library chose itself (a scratch file next to the target ...): such names may hold the process id or a
+        # random suffix, so the log refers to them by order of first appearance
+        al = self.__dict__.setdefault('_aliases', {})
+        return al.setdefault(b, '<library-named:%d>' % (len(al) + 1))
 
     def open_handle(self, path, mode, fault=None, by_fd=False):
         if by_fd:
@@ -155,10 +186,14 @@ class FsSeam:
 
         def sim_open(path, mode='r', *a, **kw):
             seam.tick('open', target=seam.rel(path), mode=mode)
+            if seam.on_io is not None:
+                seam.on_io('open')
             f = open(path, mode, *a, **kw)
             fault, seam.pending_fault = seam.pending_fault, None
             if fault and 'w' in mode:
                 return FaultyFile(f, seam, fault)
+            if seam.on_io is not None and 'w' in mode:
+                return _YieldFile(f, seam)
             return f
 
         def sim_File(target, mode='r', *a, **kw):
